@@ -1059,6 +1059,8 @@ class Engine:
         return items[:i] + [ListObj(list(mid))] + items[len(items) - after:]
 
     def setattr(self, path, o, name, v):
+        if hasattr(o, "sym_setattr"):
+            return o.sym_setattr(self, path, name, v)
         if isinstance(o, (Obj, ExcVal)):
             o.attrs[name] = v
             path.ghost.setdefault("writes", []).append(("attr", o, name))
@@ -1682,6 +1684,8 @@ class Engine:
         return self.getitem(path, o, k, frame)
 
     def getitem(self, path, o, k, frame=None):
+        if hasattr(o, "sym_getitem"):
+            return o.sym_getitem(self, path, k)
         if isinstance(o, (tuple, str)) and isinstance(k, int):
             try:
                 return o[k]
